@@ -247,6 +247,8 @@ def gen_case(rnd, prop, tier):
             cb = 'record'
         elif r < 0.4:
             cb = ['interrupt', rnd.choice([1, 1, 2, 3, 5])]
+        elif r < 0.48:
+            cb = ['sigint', rnd.choice([1, 2, 3, 5, 8])]       # KeyboardInterrupt delivered inside the k-th belief-propagation call of this estimate
         iters = rnd.choice([1, 1, 2, 3, 5, max_it])
         refill = None
         dense = [i for i in sub if pool[i]['q'] in ('dense', 'prefix')]
@@ -336,7 +338,7 @@ class Callback:
 
     def __call__(self, marginals):
         self.calls += 1
-        if isinstance(self.kind, list) and self.calls >= self.kind[1]:
+        if isinstance(self.kind, list) and self.kind[0] == 'interrupt' and self.calls >= self.kind[1]:
             # sticky: a cancelled caller stays cancelled; a callback that outlives its own call would cancel later calls too
             raise SimInterrupt('injected at callback %d' % self.calls)
 
@@ -661,6 +663,17 @@ def run_case(case, prop):
             use_default = (not opts) and (oi + len(sub)) % 2 == 0       # half of the option-free calls go through the shared default options dict
             if use_default:
                 faults['shared-default-options-dict'] = faults.get('shared-default-options-dict', 0) + 1
+            sig_k = cb[1] if isinstance(cb, list) and cb[0] == 'sigint' else None
+            bp_calls = [0]
+            GM = mbi.GraphicalModel
+            bp_orig = GM.belief_propagation
+            if sig_k is not None:
+                def bp_sigint(self_, *a_, **k_):
+                    bp_calls[0] += 1
+                    if bp_calls[0] == sig_k:
+                        raise KeyboardInterrupt('simulated SIGINT at the entry of belief-propagation call %d' % sig_k)
+                    return bp_orig(self_, *a_, **k_)
+                GM.belief_propagation = bp_sigint
             try:
                 if use_default:
                     model, v = guard_repo(lambda: eng.estimate(meas, total, engine=solver, callback=cbo), 'estimate:' + solver)
@@ -675,9 +688,17 @@ def run_case(case, prop):
                         viol.append(v.as_dict())
                     else:
                         probes['estimate-raised(other property)'] = probes.get('estimate-raised(other property)', 0) + 1
+            except KeyboardInterrupt:
+                if sig_k is None or bp_calls[0] < sig_k:
+                    raise                       # a real one
+                interrupted = True
+                faults['sigint-inside-belief-propagation'] = faults.get('sigint-inside-belief-propagation', 0) + 1
+                GM.belief_propagation = bp_orig
+                if prop == 'C08' and hasattr(eng, 'model') and hasattr(eng.model, 'potentials'):
+                    check_coherent(mbi, eng.model, case, tag + ' engine.model after a KeyboardInterrupt inside belief-propagation call %d' % sig_k, solver + ':after-sigint', viol, probes)
             except SimInterrupt:
                 interrupted = True
-                if not isinstance(cb, list):
+                if not (isinstance(cb, list) and cb[0] == 'interrupt'):
                     # this call passed no interrupting callback: the interrupt came from a callback of an EARLIER call
                     if prop == 'C13':
                         viol.append(Violation('c13-stale-callback', 'c13-stale-callback', 'a callback passed to an earlier call was invoked (and cancelled) a later call that passed %s (%s; history %s)' % (
@@ -691,13 +712,20 @@ def run_case(case, prop):
                         # the optimiser was made to exit early: what the estimator object now exposes as its model (mechanisms read
                         # engine.model) must still be one coherent distribution
                         check_coherent(mbi, eng.model, case, tag + ' engine.model after the call was interrupted at callback %d' % cbo.calls, solver + ':after-interrupt', viol, probes)
+            finally:
+                GM.belief_propagation = bp_orig
+            if sig_k is not None and not interrupted:
+                if bp_calls[0] >= sig_k:
+                    faults['sigint-swallowed-by-estimate'] = faults.get('sigint-swallowed-by-estimate', 0) + 1
+                else:
+                    probes['sigint-not-reached'] = probes.get('sigint-not-reached', 0) + 1
             steps += 1 + (cbo.calls if cbo else iters)
             if pending_interrupt:
                 interrupted_then_est = True
             pending_interrupt = interrupted
             est_sets.append(tuple(sub))
             seq.append(('E', solver, tuple(sub), iters if iters < 6 else 'many', 'int' if interrupted else ('cb' if cb else '')))
-            if cb and not interrupted and isinstance(cb, list):
+            if cb and not interrupted and isinstance(cb, list) and cb[0] == 'interrupt':
                 probes['interrupt-not-reached'] = probes.get('interrupt-not-reached', 0) + 1
             # (iii) caller inputs untouched
             if prop == 'C13':
